@@ -26,10 +26,15 @@ type c11env struct {
 	notify *hnotifier
 }
 
-func c11new(v *verifrt.T) *c11env {
+func c11new(v *verifrt.T) *c11env { return c11newState(v, contract.ContractStateAllowed) }
+
+func c11newState(v *verifrt.T, state uint8) *c11env {
 	e := &c11env{ciph: &hcipher{}, notify: &hnotifier{}, trie: message.NewTrie()}
 	e.lic = &license.V1{User: v.U32("lic_contract"), Sign: v.U32("lic_sign")}
 	contracts := contract.NewSingleContractProvider(e.lic, usage.NewNoop())
+	if state != contract.ContractStateAllowed {
+		verifrt.SetUnexported(contracts, "owner.State", state)
+	}
 	e.svc = &Service{contracts: contracts, subscriptions: e.trie, License: e.lic}
 	e.svc.keygen = keygen.New(e.ciph, contracts, e.svc)
 	e.ps = pubsub.New(e.svc, storage.NewNoop(), e.notify, e.trie)
@@ -100,7 +105,9 @@ func c11request(v *verifrt.T, e *c11env, c *Conn, req keygen.Request) (*keygen.R
 
 // VerifC11Create: key generation with an arbitrary presented key.
 func VerifC11Create(v *verifrt.T) {
-	e := c11new(v)
+	// the contract may be allowed, refused or in the unknown state
+	cstate := []uint8{contract.ContractStateAllowed, contract.ContractStateUnknown, contract.ContractStateRefused}[v.Choice(3, "cstate")]
+	e := c11newState(v, cstate)
 	parent, pexp := c11key(v, "p")
 	// not an extendable key: that path is VerifC11Extend's
 	v.Assume(parent.Permissions()&security.AllowExtend == 0 || parent.Permissions() == security.AllowMaster)
@@ -130,6 +137,7 @@ func VerifC11Create(v *verifrt.T) {
 	v.Assume(pexp == 0 || pat < t0 || pat > t1)
 	parentOK := verifrt.And(parent.Permissions() == security.AllowMaster, verifrt.Or(pexp == 0, pat > t1))
 	parentOK = verifrt.And(parentOK, verifrt.And(parent.Contract() == e.lic.User, verifrt.And(parent.Signature() == e.lic.Sign, parent.Master() == 1)))
+	parentOK = verifrt.And(parentOK, cstate == contract.ContractStateAllowed)
 	if !ok {
 		v.Assert(len(e.ciph.minted) == 0, "C11.create.nothing-minted-on-refusal")
 		v.Assert(verifrt.Not(parentOK), "C11.create.valid-master-key-is-served")
